@@ -7,8 +7,9 @@ package main
 // Per stream: a fresh connection; the stream is written in one go (no waiting for `+`), the write side is
 // closed ("cut off by a disconnect"), everything the server writes is read to the end. Observed:
 //
-//   - the completion results, in order (`<tag> OK|NO|BAD …`, the first word may be EMPTY; `* BYE IMAP session
-//     state is inconsistent…` is the completion of the invalid-state close). They are judged against the Lean
+//   - the completion results, in order (`<tag> OK|NO|BAD …`; the first word may be EMPTY (a defect repaired by /repo
+//     6e0070e) or `*` for BAD / NO: the answer to a line without a parsable tag; `* BYE IMAP session state is
+//     inconsistent…` is the completion of the invalid-state close). They are judged against the Lean
 //     session-loop model by dialect `judge-c11-session` (lean/GluonModel/Driver/DSessionLoop.lean): exactly
 //     one completion per complete line, with the right tag; the model's lines, tags, classes of parse errors /
 //     IDLE / LOGOUT and the place where the session ends must all agree with what was written.
@@ -26,12 +27,16 @@ package main
 //   - a SECOND, authenticated session on the same server that issues NOOP all the time and must be answered
 //     within 2 s (`cause=canary-unanswered`).
 //
+// The search-nesting-* causes were found with this oracle and repaired by /repo c30e930 (SEARCH keys nest at most 64
+// levels deep); the labels stay as regression detectors, like late-error-empty-tag / untagged-line-empty-tag /
+// starttls-without-tls-drops (repaired by d36bee1 / 6e0070e / d270f6a) in the judge.
+//
 // Streams: the malformed-command generators of d_parse_gen.go (mutations of valid commands) joined to multi-line
 // streams, before and after LOGIN / SELECT; cuts at every offset of a command (mid-token, mid-string,
 // mid-literal) followed by the disconnect; NUL / 8-bit / bare CR / LF; 1 MB lines; 19 / 20 / 21 / 40 erroneous
 // lines in a row with and without a well-formed line in between; IDLE with DONE / another command / garbage;
 // STARTTLS, TLS record headers, LOGOUT, DONE outside IDLE, literals; nesting bombs (10^5 levels; 9·10^5 and
-// 2·10^7 in the thorough tier — the latter are judged against the model's answer for the same shape at 64 levels).
+// 2·10^7 in the thorough tier — the latter are judged against the model's answer for the same shape at 200 levels).
 
 import (
 	"bufio"
@@ -287,6 +292,10 @@ func c11sParseResponses(buf []byte, o *c11sObs) {
 		switch {
 		case strings.HasPrefix(s, c11sByeInconsistent):
 			o.Completions = append(o.Completions, hexB([]byte("*"))+":bye")
+		case strings.HasPrefix(s, "* BAD ") || s == "* BAD" || strings.HasPrefix(s, "* NO ") || s == "* NO":
+			// the untagged form of a completion: the answer to a line without a parsable tag (gluon writes no
+			// other untagged BAD / NO)
+			o.Completions = append(o.Completions, hexB([]byte("*"))+":"+strings.ToLower(strings.Fields(s)[1]))
 		case strings.HasPrefix(s, "* "):
 			o.Untagged++
 		case strings.HasPrefix(s, "+"):
@@ -613,7 +622,37 @@ func c11sClassifyHang(dump string) (cause, detail string) {
 	}
 	top := strings.Join(frames, " < ")
 	if strings.Contains(dump, "SanitizedString") && (strings.Contains(dump, "SearchKey") || strings.Contains(dump, "command.Search")) {
-		return "cause=search-nesting-quadratic-time", "the reader goroutine is still rendering the parsed command for a debug log line (cmd.SanitizedString(), evaluated whether or not debug logging is on): every nesting level of a SEARCH key formats all levels below it, time grows with the square of the nesting depth; running: " + top
+		// who asked for the rendering: the first frame below the SanitizedString frames that is outside imap/command
+		caller := "?"
+		for _, g := range blocks {
+			if !strings.Contains(g, "SanitizedString") {
+				continue
+			}
+			lines := strings.Split(g, "\n")
+			seen := false
+			for i, l := range lines {
+				if strings.Contains(l, "SanitizedString") {
+					seen = true
+					continue
+				}
+				if seen && strings.HasPrefix(l, "github.com/ProtonMail/gluon/") && !strings.Contains(l, "/imap/command.") {
+					fn := l
+					if k := strings.LastIndexByte(fn, '('); k > 0 {
+						fn = fn[:k]
+					}
+					caller = strings.TrimPrefix(fn, "github.com/ProtonMail/gluon/")
+					if i+1 < len(lines) {
+						loc := strings.Fields(strings.TrimSpace(lines[i+1]))
+						if len(loc) > 0 {
+							caller += " (" + strings.TrimPrefix(loc[0], "/repo/") + ")"
+						}
+					}
+					break
+				}
+			}
+			break
+		}
+		return "cause=search-nesting-quadratic-time", "a goroutine of the session is rendering the parsed command for a log line (cmd.SanitizedString(), evaluated whether or not the line is logged), called from " + caller + ": every nesting level of a SEARCH key formats all levels below it, time grows with the square of the nesting depth; running: " + top
 	}
 	if top == "" {
 		top = "(no running gluon goroutine in the dump)"
